@@ -40,10 +40,12 @@ type c01Scen struct {
 	// APIReuse: the in-process publisher keeps ONE *gmqtt.Message and, before every Publish, sets the fields an
 	// application sets (topic, QoS, retain, payload, properties) - it never touches what the broker fills in.
 	APIReuse bool `json:"api_reuse,omitempty"`
+	Redis    bool `json:"redis,omitempty"` // persistence on the redis backend (harness RESP server)
 }
 
 func genC01(t *rapid.T) c01Scen {
 	s := c01Scen{Mode: rapid.SampledFrom([]string{"overlap", "onlyonce"}).Draw(t, "mode"), APIReuse: rapid.Bool().Draw(t, "api_reuse")}
+	s.Redis = rapid.IntRange(0, 4).Draw(t, "backend") == 0
 	nc := rapid.IntRange(1, 5).Draw(t, "nclients")
 	for i := 0; i < nc; i++ {
 		c := c01Client{V: rapid.SampledFrom([]int{4, 5, 5}).Draw(t, "v")}
@@ -181,6 +183,11 @@ func expectedDeliveries(mode string, subs map[string]subSpec, clientIdx int, pub
 func runC01(s c01Scen, c *ev.Case) *ev.Violation {
 	cfg := fixture.BaseConfig()
 	cfg.MQTT.DeliveryMode = s.Mode
+	cfg, cleanupBackend, bv := withBackend(cfg, s.Redis, c)
+	if bv != nil {
+		return bv
+	}
+	defer cleanupBackend()
 	b, err := fixture.Start(fixture.Opts{Config: cfg})
 	if err != nil {
 		return harnessErr("start broker: %v", err)
